@@ -24,6 +24,8 @@ THEOREMS = [
     "Rtosc.C12.load_save_restores_partial",
     "Rtosc.C12.load_save_restores_scanned_partial",
     "Rtosc.C12.posinf_not_restored_counterexample",
+    "Rtosc.C12.nan_not_restored_counterexample",
+    "Rtosc.C12.mixed_option_array_not_restored_counterexample",
     "Rtosc.C12.hypotheses_cover_shared_dependants_and_preset_arrays",
     # text level (RtoscModel/Props/C12Text.lean): C10's round trip as the lemma for the file text
     "Rtosc.C12.saved_line_scans_back",
@@ -35,6 +37,7 @@ THEOREMS = [
     "Rtosc.C12.load_save_restores_text_ports",
     "Rtosc.C12.untouched_text_is_header",
     "Rtosc.C12.posinf_text_counterexample",
+    "Rtosc.C12.nan_text_counterexample",
     # array lines with compressed runs: which arrays are covered (ArrCutOK), from the values
     "Rtosc.C12.array_line_decided",
     "Rtosc.C12.array_line_no_long_run",
@@ -54,20 +57,29 @@ VERIF = os.path.dirname(os.path.dirname(os.path.dirname(os.path.abspath(__file__
 SA.write_if_changed(os.path.join(VERIF, "harness", "save_apps.inc"), SA.cxx_source())
 HARNESS = {"src": ["save.cpp"], "deps": ["common.h", "save_apps.inc"], "cxxflags": ["-O0", "-g0"]}
 STATELESS = True
-RULE = ("fourteen generated applications (fixed pool; 10-80 parameter instances each; rParam/rParamI/rParamF/rToggle/"
-        "rOption/rString (capacities 4..400), rArrayI/F/T (2..14 elements; defaults spelled element by element, as repetitions "
-        "`6x7`, as ranges `1 ... 5`, or per preset), ports with the enumeration inside their name (`v#3/en`), rRecur/rRecurs/"
-        "rRecurp and enumerated pointer sub-trees, rEnabledBy on sub-trees and on parameters, sub-trees enabled by a toggle of "
-        "their own - rRecur(sub, rEnabledBy(sub/t)) and rSelf(T, rEnabledBy(t)), toggles on or off by default, nested - "
+RULE = ("seventeen generated applications (fixed pool; 10-80 parameter instances each, one with 387: a 128- and a 256-element "
+        "array; rParam/rParamI/rParamF/rToggle/"
+        "rOption/rString (capacities 4..400), rArrayI/F/T/rArrayOption (2..14, 128, 256 elements; defaults spelled element by "
+        "element, as repetitions `6x7` / `128x7` / `3xsine`, as ranges `1 ... 5`, or per preset; option elements by symbol or "
+        "by int), ports with the enumeration inside their name (`v#3/en`), rRecur/rRecurs/"
+        "rRecurp and enumerated pointer sub-trees, rEnabledBy on sub-trees and on parameters - naming a toggle, an rParamI "
+        "or an rOption port (enabled = non-zero) -, sub-trees enabled by a toggle of "
+        "their own - rRecur(sub, rEnabledBy(sub/t)) and rSelf(T, rEnabledBy(t)), enabling ports on or off by default, nested - "
         "rDefaultDepends+rPreset(s) "
         "(chains up to 7 deep, lists up to 16 entries), rDepends on parameters and on sub-trees (lists up to 16 entries), "
         "rOptions up to 16 entries, sibling names that extend each other) x states reached by 0..40 parameter messages "
-        "(in-range, out-of-range, extreme values incl. +-infinity, symbols - also unknown ones - and ints for options, strings "
+        "(in-range, out-of-range, extreme values incl. +-infinity and quiet NaNs, symbols - also unknown ones - and ints for "
+        "options, strings "
         "with quotes/newlines/'%' up to the capacity and beyond, messages into disabled sub-trees, wrong-typed messages, "
-        "whole-array runs, single array elements, walks down a dependency chain, enable-then-set); per state: save, scan the "
-        "file with the library's scanner, load into a fresh instance; plus damaged files (every token of the two header lines "
-        "replaced or deleted, versions, application name, unparsable message, unmatched / wrong-typed / argument-less message "
+        "messages with more arguments than the port reads, "
+        "whole-array runs, single array elements - in the long arrays at indices 99..255 -, walks down a dependency chain, "
+        "enable-then-set and enable-set-disable-enable with every kind of enabling port); per state: save, scan the "
+        "file with the library's scanner, load into a fresh instance; plus damaged files (a token of the two header lines "
+        "deleted or edited generically - characters dropped/doubled/changed, case, signs and leading zeros in numbers, white "
+        "space inside, foreign words: edits that make the header wrong and edits sscanf forgives; versions, application name, "
+        "unparsable message, unmatched / wrong-typed / argument-less / multi-argument message "
         "at every position) and the dependency metadata of the compiled port tables compared with the declaration. "
+        "The model saves and loads the state the implementation dumped before saving (the dump is input, not an observable). "
         "Non-trivial = history with at least one message; distinct = distinct op line")
 ASSUMPTIONS = [
     "applications re-apply the defaults of every dependant when a port changes (rChangeCb), and keep disabled "
@@ -88,9 +100,12 @@ ASSUMPTIONS = [
     "hypotheses (all clauses of WF except kind_ok - option names distinct, float bounds ordered, char bounds in range - and "
     "walk_tiles - the walk visits every instance once -, which the driver does not print) are evaluated by the compiled "
     "model for every application of the pool on every run (evidence: input_distribution.theorem_hypotheses_per_app): they "
-    "hold for all fourteen applications A0-A13 (the driver still prints the retired clauses anc_chain and constant-array-"
+    "hold for all seventeen applications A0-A16 (the driver still prints the retired clauses anc_chain and constant-array-"
     "defaults `array_ok` for information: A6-A9 violate the former, A9/A10 the latter; the array clause in force is printed "
     "as `array_shape`)",
+    "an enabling port (rEnabledBy) is a toggle or an int-replying port (rParamI, rOption): port_is_enabled takes `T` or a "
+    "non-zero `i` for 'enabled' (App.enabledVal); the application allocates / shows the sub-tree or parameter under the same "
+    "condition and re-initialises it whenever the enabling port is written (toggles: whenever it changes)",
     "a toggle that enables the sub-tree it lives in (rRecur(sub, rEnabledBy(sub/t)) / rSelf(T, rEnabledBy(t))) is modelled "
     "like a toggle of the parent table: it guards every other parameter of the sub-tree; it has a constant default and "
     "is not itself a preset port, an rDepends entry or the enabling port of anything else; switching it re-initialises the "
@@ -99,12 +114,26 @@ ASSUMPTIONS = [
     "and fixes/C13-scan-deps-self-port applied (without them files of A11-A13 do not load: C13-F26, C13-F27)",
     "preset ports are int/option ports at the level of the dependant (get_default_value dispatches the depended "
     "port on the dependant's own Ports); every preset table has an rDefault fall-back",
-    "no NaN / -0.0 float values (the comparison with the default is numeric); +infinity is generated and fails: known "
-    "finding C12-K9 (it is printed `inf (inf)`, which does not scan back)",
+    "no -0.0 float values (the comparison with the default is numeric) and no signalling or payload-carrying NaNs (a NaN "
+    "is written `nan` / `-nan`: the payload is lost; the harness' variadic message construction quiets a signalling NaN); "
+    "+infinity and the quiet NaNs 7fc00000 / ffc00000 are generated: `-inf (-inf)` and `-nan (-nan)` load back, +infinity "
+    "and the NaN without sign bit fail: known finding C12-K9 (printed `inf (inf)` / `nan (nan)`, which does not scan back)",
+    "an rArrayOption port whose elements hold an option's index in one place and another int in another is written with "
+    "symbols and ints mixed, which does not scan back: known finding C12-K10 (generated; trigger hasMixedArray)",
+    "a line a port accepts: rtosc_match_args accepts a message whose type string is one of the alternatives of the port's "
+    "argument specification or STARTS with the last one - `/p 1 2` for `p::i` is accepted, the callback reads argument 0 "
+    "(App.lastAlt, App.dispatch); such a line is not 'a line no port accepts'",
+    "the pre-save state is taken from the implementation's own dump (parameters of enabled sub-trees; hidden ones at their "
+    "fresh values): how the callbacks bring a state about is C14's matter; where the model's own run of the history reaches "
+    "another state this is counted (input_distribution.history_state_differs_from_model), not reported",
     "array element addresses are spelled canonically (decimal, no leading zeros, < 2^31): rtosc_match_number also takes "
     "`/arr01` or an index that wraps, the model's address lookup does not (never generated, never written by save_to_file)",
-    "header damage means a wrong token; what sscanf forgives (any amount of white space, also none, between the tokens; "
-    "text behind the last conversion of the second line, which is then read as the first message) is not 'a wrong header'",
+    "a wrong header is one the two sscanf formats of load_from_file do not read to their end, a version component above "
+    "255, or another application's name (oracle: tools/props/c12.py wrong_header, a regular expression for the two formats; "
+    "model: RtoscModel/Save/Text.lean parseHeader run by the driver on the damaged header text); what sscanf forgives (any "
+    "amount of white space, also none, between the tokens; a sign or leading zeros in a number; text behind the last "
+    "conversion of the second line, which is then read as a comment, as a message of its own, or as garbage) is not 'a wrong "
+    "header'; a version number of 2^32 or more wraps in the code and not in the model (not generated)",
     "text level: the application name is a word of at most 127 one-byte characters without white space (what `%127s` reads "
     "back; NameTextOK); port addresses start with '/', consist of one-byte characters without white space and are shorter than "
     "8190 characters (AddrTextOK; the port name buffer of dispatch_printed_messages has 8192); the printer's 8192-byte buffer "
@@ -123,21 +152,27 @@ TRUSTED = ["hand-written abstract model RtoscModel/Save/{App,Deps,Load,Save}.lea
            "text stages: RtoscModel/Save/Text.lean composes C10's models of rtosc_print_message (default print options, as "
            "get_changed_values calls rtosc_print_arg_vals), rtosc_count_printed_arg_vals_of_msg and rtosc_scan_message, and C16's "
            "model of rtosc_arg_val_itr, into save_to_file / load_from_file on file text; the two header sscanf calls are "
-           "transcribed by hand there (a sign in front of a version number is not modelled). This composition is NOT part of "
-           "the compiled driver (drv_save compares abstract lines, its output is unchanged); it is compared, outside the "
+           "transcribed by hand there (the driver runs this transcription on every damaged header of the `tok` cases). The "
+           "composition of the message stages is NOT part of "
+           "the compiled driver (drv_save compares abstract lines); it is compared, outside the "
            "check (tools/props/c12_textcheck.py, lean/Driver/SaveTextCheck.lean), with the text the compiled library writes: "
-           "600 generated states of the fourteen applications, every file byte-identical, and the Lean load_from_file restored "
-           "597 of them - the other three hold +infinity (C12-K9)",
+           "600 generated states of the first fourteen applications, every file byte-identical, and the Lean load_from_file "
+           "restored 597 of them - the other three hold +infinity (C12-K9)",
            "message encoding (C01), dispatch (C04), callbacks (C14), argument comparison (C16) enter only through the "
            "correspondence"]
 LEVEL_TEXT = ("Lean theorems over the abstract application model, for every application satisfying App.WF (any acyclic, "
               "transitively closed dependency order - independent ports may share dependants; array elements with constant or "
               "preset-dependent defaults; see assumptions), App.MetaCovers and MetaRanked, and every reachable state: "
               "load(save s) restores s and "
-              "counts the lines, a line is present iff the value differs from its preset-dependent default, damaged files are "
-              "rejected; the hypotheses are evaluated (as Bools) for each generated application on every run and hold for all "
-              "fourteen (hypotheses_cover_shared_dependants_and_preset_arrays: a concrete application with a shared dependant "
-              "and a preset-dependent array satisfies them); all fourteen are compared, model against compiled implementation "
+              "counts the lines, a line is present iff the value differs from its preset-dependent default (an array line "
+              "carries the elements up to the last one that differs from its default as the line spells it - map_arg_vals "
+              "runs before first_equal_index, so an rArrayOption element holding an option's index is always written: "
+              "saved_value_array), damaged files are "
+              "rejected; enabling ports are toggles or int / option ports (enabled = `T` or a non-zero int, App.enabledVal); a "
+              "message with more arguments than the port reads is dispatched when rtosc_match_args accepts it (App.lastAlt); "
+              "the hypotheses are evaluated (as Bools) for each generated application on every run and hold for all "
+              "seventeen (hypotheses_cover_shared_dependants_and_preset_arrays: a concrete application with a shared dependant "
+              "and a preset-dependent array satisfies them); all seventeen are compared, model against compiled implementation "
               "built from the real macros, and the property is evaluated directly on the implementation's output. "
               "Text level (Props/C12Text.lean, with C10's printer/checker/scanner theorems as lemmas): for every state whose "
               "saved lines are covered (LineTextOK), load_from_file applied to the TEXT save_to_file returns - header lines, "
@@ -186,9 +221,18 @@ LEVEL_NOTE = ("partial: the theorems about presence, rejection and ordering are 
               "arrCutB but by no closed-form criterion; the char-run line `/a ['a' ... 'f' 'x']` does load back when the "
               "text model is evaluated - unproved, not refuted); chars "
               "1..6/14..31/127, string and symbol "
-              "bytes outside 7..13/32..126, -infinity and NaN; +infinity is refuted (posinf_text_counterexample: the text "
-              "model prints `/f inf (inf)` and load_from_file on it returns a negative result - C12-K9, also "
-              "load_save_restores_scanned_partial / posinf_not_restored_counterexample at the abstract level); the header "
+              "bytes outside 7..13/32..126, -infinity and NaN; +infinity and the NaN without sign bit are refuted (posinf_text_counterexample, "
+              "nan_text_counterexample: the text "
+              "model prints `/f inf (inf)` / `/f nan (nan)` and load_from_file on it returns a negative result - C12-K9, also "
+              "load_save_restores_scanned_partial / posinf_not_restored_counterexample / nan_not_restored_counterexample at "
+              "the abstract level: the abstract `scansBack` says which lines the unchanged text stages hand back - no float "
+              "that is +infinity or a NaN without sign bit, K9, and no array mixing symbols with ints, K10, "
+              "mixed_option_array_not_restored_counterexample; load_save_restores_scanned_partial is true by construction "
+              "of scannedFile and only records the two triggers); rejects_unmatched speaks about a line that matches in NO "
+              "state, its helper lemmas cover one-argument lines (a multi-argument line is rejected unless its first "
+              "argument is of the port's last alternative: by evaluation of the model only); there is no text-level "
+              "rejection theorem (the header parser parseHeader is run by the driver, not characterised by a theorem beyond "
+              "parseHeader_fileTextOf); the header "
               "sscanf transcription and the composition itself (RtoscModel/Save/Text.lean) are not run by the compiled driver: "
               "they are tied to the code by C10's correspondence for the three functions they call and by a one-off comparison "
               "of file texts; message encoding, dispatch and callbacks are tied by correspondence only; several theorems (load_counts_lines, rejects_*, saved_iff_differs) "
@@ -197,7 +241,7 @@ LEVEL_NOTE = ("partial: the theorems about presence, rejection and ordering are 
               "App.setParam) is the modelled precondition, tied to the generated applications by correspondence; the Bool "
               "versions of WF.kind_ok and WF.walk_tiles (App.kindOkB / App.walkTilesB in RtoscModel/Save/WfBool.lean, proved "
               "sound in Proofs/SaveWfBool.lean) are not yet printed by the driver's `wf` mode, so the per-run evidence covers "
-              "the other clauses only (both were evaluated once for the fourteen applications of the pool: they hold)")
+              "the other clauses only (both were evaluated once for the first fourteen applications of the pool: they hold)")
 
 # ------------------------------------------------------------------------------------
 # histories
@@ -220,14 +264,15 @@ def hmsg(addr, v):
     return "%s~%s~%s" % (addr, t, v[1].hex())
 
 
-NO_POSINF = False      # C13 switches +infinity off: a file holding it does not scan (C12-K9), so it has no messages to permute
+NO_POSINF = False      # C13 switches +infinity / NaN (C12-K9) and rArrayOption elements outside the options (C12-K10) off: a file
+                       # holding them does not scan, so it has no messages to permute
 
 
 def rand_msg_val(rng, it, stats):
     k = it.kind
     f = it.f
     r = rng.random()
-    if r < 0.04:
+    if r < 0.04 and not (NO_POSINF and k == "O" and it.arr is not None):
         stats["wrong_type_msgs"] += 1
         return rng.choice([("i", 3), ("f", 0x3f800000), ("T",), ("s", b"x"), ("c", 65)])
     if k in ("I", "H"):
@@ -255,15 +300,21 @@ def rand_msg_val(rng, it, stats):
             return ("f", rng.choice([0x00000001, 0x80000001, 0x00800000, 0x80800000, 0x358637bd, 0xb58637bd, 0x33d6bf95]))
         if rng.random() < 0.3:
             return ("f", rng.choice(FLT_EDGE))
-        if rng.random() < 0.04:
-            stats["inf_floats"] = stats.get("inf_floats", 0) + 1
-            return ("f", 0xff800000 if NO_POSINF or rng.random() < 0.5 else 0x7f800000)
+        if rng.random() < 0.05:
+            # +-infinity and the quiet NaNs: `inf (inf)` and `nan (nan)` do not scan back (C12-K9), `-inf (-inf)` and
+            # `-nan (-nan)` do
+            stats["inf_nan_floats"] = stats.get("inf_nan_floats", 0) + 1
+            if NO_POSINF:
+                return ("f", rng.choice([0xff800000, 0xffc00000]))
+            return ("f", rng.choice([0xff800000, 0x7f800000, 0x7f800000, 0x7fc00000, 0x7fc00000, 0xffc00000]))
         return SA.fval(rng.choice(SA.DYADIC) * rng.choice([1, 1, 1, 4, 100]))
     if k == "T":
         return SA.bval(rng.random() < 0.5)
     if k == "O":
         n = len(f["opts"])
         r = rng.random()
+        if NO_POSINF and it.arr is not None:
+            r *= 0.9             # (C13) no element of an rArrayOption outside the options: such a file does not scan, C12-K10
         if r < 0.45:
             return ("S", rng.choice(f["opts"]).encode())
         if r < 0.9:
@@ -279,6 +330,21 @@ def rand_msg_val(rng, it, stats):
         n = rng.choice([0, 1, 2, 3, f["len"] - 2, f["len"] - 1, f["len"], f["len"] + 5, 30, f["len"] // 2, 250, 260])
         return ("s", bytes(rng.choice(STR_ALPH) for _ in range(max(0, n))))
     raise ValueError(k)
+
+
+def enable_msg(rng, it, on=True):
+    """a message that switches an enabling port on (off): a toggle, or an int / option port (enabled = non-zero)"""
+    if it.kind == "T":
+        return hmsg(it.addr, ("T",) if on else ("F",))
+    if not on:
+        return hmsg(it.addr, ("i", 0))
+    if it.kind == "O":
+        n = len(it.f["opts"])
+        k = rng.randrange(1, n) if n > 1 else 1
+        return hmsg(it.addr, ("S", it.f["opts"][k].encode()) if n > 1 and rng.random() < 0.5 else ("i", k))
+    lo = it.f["min"] if it.f.get("min") is not None else -50
+    hi = it.f["max"] if it.f.get("max") is not None else 50
+    return hmsg(it.addr, ("i", rng.choice([v for v in (lo, hi, 1, 2, -1, 3, 100, -128, 255, 256) if v != 0 and lo <= v <= hi] or [1])))
 
 
 def gen_history(rng, app, stats, maxlen, lens=(0, 1, 1, 2, 3, 5, 8, 12, 20)):
@@ -310,8 +376,14 @@ def gen_history(rng, app, stats, maxlen, lens=(0, 1, 1, 2, 3, 5, 8, 12, 20)):
                 elif ek == "F":
                     a0 = af
                     v = SA.fval(a0 if shape == "const" else a0 + 0.5 * (k - lead) * (1 if shape == "arith" else -1))
+                elif ek == "O":
+                    no = len(f["opts"])
+                    j = (ai % no) if shape == "const" else (ai + k) % no
+                    v = ("S", f["opts"][j].encode()) if ab else ("i", j)
                 else:
                     v = SA.bval(ab)
+                if cnt > 100 and k % 7 and rng.random() < 0.9 and shape != "const":
+                    continue             # a very long array: a sparse selection of its elements
                 msgs.append(hmsg(it.addr, v))
     if arrays and n and rng.random() < 0.2:
         # single elements of an array (not the first one): the line is cut behind the last element that differs from a
@@ -321,6 +393,14 @@ def gen_history(rng, app, stats, maxlen, lens=(0, 1, 1, 2, 3, 5, 8, 12, 20)):
         for k in sorted(rng.sample(range(cnt), min(cnt, rng.choice([1, 1, 2, 3])))):
             it = app.insts[first + (k if rng.random() < 0.3 else max(k, cnt // 2))]
             msgs.append(hmsg(it.addr, rand_msg_val(rng, it, stats)))
+        if cnt > 100:
+            # element addresses of three digits, the decade and power-of-two boundaries
+            stats["array_pokes_100"] = stats.get("array_pokes_100", 0) + 1
+            for k in rng.sample([99, 100, 101, 109, 110, 111, 119, 120, 126, 127, cnt - 2, cnt - 1, rng.randrange(100, cnt)],
+                                rng.choice([1, 2, 3])):
+                if k < cnt:
+                    it = app.insts[first + k]
+                    msgs.append(hmsg(it.addr, rand_msg_val(rng, it, stats)))
     guarded = [x for x in app.insts if x.guards]
     if guarded and n and rng.random() < 0.2:
         # switch on what enables a parameter (sub-tree toggles, the toggle of its own rEnabledBy), then set it
@@ -331,8 +411,15 @@ def gen_history(rng, app, stats, maxlen, lens=(0, 1, 1, 2, 3, 5, 8, 12, 20)):
                 it = rng.choice(own)
         stats["enable_then_set"] = stats.get("enable_then_set", 0) + 1
         for g, _p in it.guards:
-            msgs.append(hmsg(app.insts[g].addr, ("T",)))
+            msgs.append(enable_msg(rng, app.insts[g]))
         msgs.append(hmsg(it.addr, rand_msg_val(rng, it, stats)))
+        if rng.random() < 0.2:
+            # ... and off again, and perhaps on once more (an int / option guard: zero, then another non-zero value)
+            g = app.insts[rng.choice(it.guards)[0]]
+            msgs.append(enable_msg(rng, g, on=False))
+            if rng.random() < 0.5:
+                msgs.append(enable_msg(rng, g))
+                msgs.append(hmsg(it.addr, rand_msg_val(rng, it, stats)))
     selft = [x for x in app.insts if x.f.get("selftog")]
     if selft and n and rng.random() < 0.3:
         # a sub-tree enabled by a toggle of its own: switch it (off when it is on by default), sometimes back on, and
@@ -340,7 +427,7 @@ def gen_history(rng, app, stats, maxlen, lens=(0, 1, 1, 2, 3, 5, 8, 12, 20)):
         t = rng.choice(selft)
         stats["self_toggle_walks"] = stats.get("self_toggle_walks", 0) + 1
         for g, _p in t.guards:
-            msgs.append(hmsg(app.insts[g].addr, ("T",)))
+            msgs.append(enable_msg(rng, app.insts[g]))
         seq = rng.choice([["F"], ["T"], ["F", "T"], ["T", "F"], ["T"]])
         below = [x for x in app.insts if any(g == t.idx for g, _p in x.guards)]
         for v in seq:
@@ -363,6 +450,9 @@ def gen_history(rng, app, stats, maxlen, lens=(0, 1, 1, 2, 3, 5, 8, 12, 20)):
             stats["chain_skipped_max"] = max(stats.get("chain_skipped_max", 0), len(ancs) - len(keep))
             for j in keep + [it.idx]:
                 x = app.insts[j]
+                if x.idx in app.guard_set and rng.random() < 0.8:
+                    msgs.append(enable_msg(rng, x))
+                    continue
                 v = ("T",) if x.kind == "T" and rng.random() < 0.8 else rand_msg_val(rng, x, stats)
                 msgs.append(hmsg(x.addr, v))
     for _ in range(n):
@@ -375,7 +465,16 @@ def gen_history(rng, app, stats, maxlen, lens=(0, 1, 1, 2, 3, 5, 8, 12, 20)):
         if rng.random() < 0.02:
             msgs.append("/nonexistent~i~1")
             continue
-        msgs.append(hmsg(it.addr, rand_msg_val(rng, it, stats)))
+        if it.idx in app.guard_set and it.kind != "T" and rng.random() < 0.5:
+            msgs.append(enable_msg(rng, it, on=rng.random() < 0.7))
+            continue
+        m = hmsg(it.addr, rand_msg_val(rng, it, stats))
+        if rng.random() < 0.03:
+            # a message with more arguments than the port reads (accepted when the first one is of the last alternative
+            # of the port's argument specification)
+            stats["multi_arg_msgs"] = stats.get("multi_arg_msgs", 0) + 1
+            m += "~" + hmsg("", rand_msg_val(rng, rng.choice(app.insts), stats))[1:]
+        msgs.append(m)
     stats["hist_len"][str(n)] = stats["hist_len"].get(str(n), 0) + 1
     return ";".join(msgs) if msgs else "-"
 
@@ -388,6 +487,61 @@ def prepare(app):
         ps |= set(it.parents)
         it.fresh = app.canon.get(it.idx)
     app.parent_set = ps
+    app.guard_set = set(g for it in app.insts for g, _p in it.guards)
+
+
+def tok_edit(rng, t, stats):
+    """hex of the replacement of header token t (`-`: the token is deleted)"""
+    c = rng.random()
+    kind = "other"
+    if c < 0.12:
+        stats["tok_deleted"] = stats.get("tok_deleted", 0) + 1
+        return "-"
+    if c < 0.3:
+        i = rng.randrange(len(t))
+        r = rng.choice([t[:i] + t[i + 1:], t[:i] + t[i] + t[i:], t[:i] + rng.choice("xX0v%.9 +") + t[i + 1:],
+                        t[:i] + rng.choice("xX0v%.9+-") + t[i:], t + rng.choice(["x", "2", ".7", "s", "%", "\t", " "])])
+    elif c < 0.4:
+        r = rng.choice([t.lower(), t.upper(), t.swapcase(), t[::-1]])
+    elif c < 0.65 and any(ch.isdigit() for ch in t):
+        # numbers: signs, leading zeros, white space in front, other values, too large
+        kind = "number"
+        parts = t[1:].split(".") if t[:1] == "v" else t.split(".")
+        j = rng.randrange(len(parts))
+        parts[j] = rng.choice(["+" + parts[j], "0" + parts[j], "00" + parts[j], " " + parts[j], "-" + parts[j], "-0", "255", "256",
+                               "0255", "+255", "999", "4294967295", "x", "", parts[j] + " ", "\t" + parts[j]])
+        r = (t[:1] if t[:1] == "v" else "") + ".".join(parts)
+        if rng.random() < 0.15:
+            r = r[:1] + " " + r[1:]
+    elif c < 0.8:
+        # white space inside or around (sscanf's blanks match any amount of white space, also none)
+        kind = "space"
+        i = rng.randrange(len(t) + 1)
+        r = t[:i] + rng.choice([" ", "  ", "\t", "\r", "\v", "\f"]) + t[i:]
+    else:
+        r = rng.choice(["RT", "OSC", "savefile", "presetfile", "v0.3.1", "v1.2.3", "%", "%%", "#", "x", "garbage", "0.3.1",
+                        "v0.3", "v1", "savefile2", "Savefile", "v0.3.1.7", "v0,3,1", "w1.2.3", "% x", "v1.2.3 %c"])
+    if r == t or r == "" or "\n" in r:
+        r = t + "x"
+    stats["tok_" + kind] = stats.get("tok_" + kind, 0) + 1
+    return r.encode().hex()
+
+
+def wrong_header(app, text):
+    """the two header lines are not what the formats of load_from_file read (a tiny reference for the two sscanf formats
+    ` %% RT OSC v%u.%u.%u savefile%n ` and ` %% %127s v%u.%u.%u%n `): literal words in order, white space anywhere
+    between them (also none), numbers with an optional sign, each at most 255, the application's own name"""
+    import re
+    num = r"\s*([+-]?\d+)"
+    m = re.match(r"\s*%\s*RT\s*OSC\s*v" + num + r"\." + num + r"\." + num + r"\s*savefile\s*%\s*(\S+)\s*v" + num + r"\." + num + r"\." + num,
+                 text, re.S)
+    if not m:
+        return True
+    g = m.groups()
+    vals = [int(x) for x in g[:3] + g[4:]]
+    if any((v % 2 ** 32) > 255 for v in vals):
+        return True
+    return g[3] != app.appid
 
 
 def bad_ops(rng, app, hist, stats):
@@ -399,22 +553,16 @@ def bad_ops(rng, app, hist, stats):
     if k == "magic":
         arg = "-"
     elif k == "tok":
-        # one blank-separated token of a header line replaced by a wrong one, or deleted
+        # one blank-separated token of a header line replaced or deleted
         #   line 0:  %  RT  OSC  v<a>.<b>.<c>  savefile        line 1:  %  <app>  v1.2.3
-        # (only damages that make the header wrong: sscanf's blanks match any amount of white space, and what follows
-        #  the last conversion of the second line is the body's business)
-        ln, idx, alts = rng.choice([
-            (0, 0, ["-", "#", "%%", "/", "RT"]),
-            (0, 1, ["-", "rt", "RTX", "R", "OSC", "XX"]),
-            (0, 2, ["-", "osc", "OSCX", "OS", "RT", "OSX"]),
-            (0, 3, ["-", "0.3.1", "v0.3", "v0", "vx.3.1", "v0,3,1", "v.3.1", "w0.3.1", "v0.3.1.7", "v0.x.1", "v"]),
-            (0, 4, ["-", "garbage", "presetfile", "savefil", "Savefile", "save", "file", "savefile2", "SAVEFILE", "savefiles"]),
-            (1, 0, ["-", "#", "/", "x"]),
-            (1, 1, ["-"]),
-            (1, 2, ["-", "1.2.3", "v1.2", "v1", "vx.2.3", "w1.2.3", "v", "v1.2.x"]),
-        ])
-        alt = rng.choice(alts)
-        arg = "%d:%d:%s" % (ln, idx, "-" if alt == "-" else alt.encode().hex())
+        # by a generic edit of the token itself (a character dropped / doubled / changed / inserted, case, a sign or
+        # leading zeros in a number, white space inside, a neighbour's text, a foreign word): some edits make the header
+        # wrong, some sscanf forgives (`v0.3.01`, `v+0.3.1`, `v 0.3.1`, `savefile<TAB>`); what load_from_file makes of
+        # the text is the model's header parser (Save/Text.lean parseHeader) run on the same damaged text
+        toks = [["%", "RT", "OSC", "v0.3.1", "savefile"], ["%", a.appid, "v1.2.3"]]
+        ln = rng.choice([0, 0, 0, 1, 1])
+        idx = rng.randrange(len(toks[ln]))
+        arg = "%d:%d:%s" % (ln, idx, tok_edit(rng, toks[ln][idx], stats))
     elif k == "rver":
         arg = rng.choice(["256.0.0", "0.300.1", "0.0.1000", "4294967295.0.0"])
     elif k == "app":
@@ -439,13 +587,28 @@ def bad_ops(rng, app, hist, stats):
             m = hmsg(it.addr, wrong)                         # wrong argument type
         else:
             m = hmsg(it.addr, ("s", b"x")) if it.kind != "Z" else hmsg(it.addr, ("T",))
+        if m.split("~")[1] != "-" and rng.random() < 0.3:
+            # more arguments than the port reads: accepted when the first one is of the last alternative of the port's
+            # argument specification (`/p 1 2` for `p::i`, `/t false 1` for `t::T:F`; not `/t true 1`)
+            stats["bad_line_multi_arg"] = stats.get("bad_line_multi_arg", 0) + 1
+            it2 = rng.choice(a.insts)
+            first = rand_msg_val(rng, it, stats) if rng.random() < 0.7 else None
+            if first is not None:
+                m = hmsg(it.addr, first)
+            for _ in range(rng.choice([1, 1, 2])):
+                m += "~" + hmsg("", rand_msg_val(rng, it2, stats))[1:]
         arg = "%d:%s" % (rng.randint(0, 12), m)
     return "bad %d %s %s %s %s" % (a.index, a.desc, hist, k, arg)
 
 
 def schedule(apps):
     """round-robin order of the applications; those with the constructs of the later rounds (A8..) twice"""
-    return list(apps) + [a for a in apps if a.index >= 8]
+    big = [a for a in apps if len(a.insts) > 200]
+    rest = [a for a in apps if len(a.insts) <= 200]
+    # the application with the 128- and 256-element arrays costs the compiled model ~50 times as much per case: once per
+    # two rounds; the applications with the constructs of the latest round (A14..) three times per round
+    rnd = list(rest) + [a for a in rest if a.index >= 8] + [a for a in rest if a.index >= 14]
+    return rnd + big[:1] + rnd
 
 
 def hypotheses_report(apps):
@@ -467,8 +630,14 @@ def hypotheses_report(apps):
     return rep
 
 
+_STATS = None
+
+
 def generate(rng, tier, stats):
     apps = SA.pool()
+    global _STATS
+    if _STATS is None:
+        _STATS = stats            # (the runner's search calls generate() a second time: the first dict is the evidence)
     stats["theorem_hypotheses_per_app"] = hypotheses_report(apps)
     n = 4000 if tier == "quick" else 150000
     stats.update({"apps": len(apps), "params_per_app": [len(a.insts) for a in apps], "hist_len": {}, "wrong_type_msgs": 0,
@@ -603,40 +772,98 @@ def oracle(op, out):
                 k, a[k] if k < len(a) else None, b[k] if k < len(b) else None)
         return None
     if w[0] == "bad":
-        if w[4] in ("magic", "rver", "app", "aver", "parse", "tok"):
+        if w[4] in ("magic", "rver", "app", "aver", "parse"):
             if d.get("R") != "neg":
                 return "damaged file (%s) accepted with result %s" % (w[4], d.get("R"))
             return None
-        # inserted line: must be rejected iff no port accepts it
+        if w[4] == "tok":
+            # rejected when the edited header is wrong (reference: wrong_header); what sscanf forgives is no wrong header
+            ln, idx, alt = w[5].split(":")
+            toks = [["%", "RT", "OSC", "v0.3.1", "savefile"], ["%", app.appid, "v1.2.3"]]
+            if alt == "-":
+                del toks[int(ln)][int(idx)]
+            else:
+                toks[int(ln)][int(idx)] = bytes.fromhex(alt).decode("latin1")
+            text = " ".join(toks[0]) + "\n" + " ".join(toks[1]) + "\n/"
+            if wrong_header(app, text) and d.get("R") != "neg":
+                return "file with a wrong header (%r) accepted with result %s" % (text[:-2], d.get("R"))
+            return None
+        # inserted line: must be rejected when no port accepts it.  A port accepts a message whose type string is one of
+        # the alternatives of its argument specification, or starts with the last one (rtosc_match_args: arguments behind
+        # are ignored); a message without arguments is a query
         m = w[5].split(":", 1)[1]
-        addr, tag, payload = m.split("~")
+        parts = m.split("~")
+        addr = parts[0]
+        ts = "".join(t for t in parts[1::2] if t != "-")
         it = next((x for x in app.insts if x.addr == addr), None)
-        accepts = {"I": "i-", "H": "i-", "C": "c-", "F": "f-", "T": "TF-", "O": "icS-", "Z": "s-"}
-        if it is None or tag not in accepts[it.kind]:
+        alts = {"I": ["i"], "H": ["i"], "C": ["c"], "F": ["f"], "T": ["T", "F"], "O": ["i", "c", "S"], "Z": ["s"]}
+        if it is None or not (ts == "" or ts in alts[it.kind][:-1] or ts.startswith(alts[it.kind][-1])):
             if d.get("R") != "neg":
                 return "file with a line no port accepts (%s) loaded with result %s" % (m, d.get("R"))
         return None
     return None
 
 
+def unscannable_float(vtok_):
+    """+infinity or a NaN without sign bit: written `inf (inf)` / `nan (nan)` (trigger Rtosc.C12.hasInfOrNaN)"""
+    return vtok_[:1] == "f" and len(vtok_) == 9 and 0x7f800000 <= int(vtok_[1:], 16) < 0x80000000
+
+
+def mixed_option_array(app, O):
+    """trigger of C12-K10 (Rtosc.C12.hasMixedArray) on the dumped state: the line of some rArrayOption port - its elements
+    up to the last one that, as the line spells it, differs from its default - holds an option's index in one element and another int in another"""
+    def getv(j):
+        a = app.insts[j].addr
+        return SA.parse_vtok(O[a]) if a in O else app.canon[j]
+    for w_ in app.walk:
+        if w_[0] != "a":
+            continue
+        els = app.insts[w_[2]:w_[2] + w_[3]]
+        if els[0].kind != "O" or els[0].addr not in O:
+            continue
+        cur = [SA.parse_vtok(O[it.addr]) for it in els]
+        nopt = len(els[0].f["opts"])
+        dfl = [SA.eval_default(it, getv) for it in els]
+        if cur == dfl:
+            continue
+        # (map_arg_vals runs before first_equal_index: an element holding an option's index is a symbol by then and is
+        #  never cut off)
+        last = max([k for k in range(len(els)) if cur[k] != dfl[k] or 0 <= cur[k][1] < nopt], default=-1)
+        inr = [0 <= v[1] < nopt for v in cur[:last + 1]]
+        if any(inr) and not all(inr):
+            return True
+    return False
+
+
 def known(op, impl_out, model_out, defs):
-    """C12-K9: a float holding +infinity is written `inf (inf)` and does not scan back.  Attributed only when the saved
-    state holds +inf in an enabled float parameter (trigger `hasPosInf`) and the implementation printed exactly what the
-    defect-mirroring model predicts."""
+    """C12-K10: see mixed_option_array.  C12-K9: a float holding +infinity or NaN is written `inf (inf)` / `nan (nan)` and does not scan back.  Decided from
+    the implementation's own output and the trigger: the state it saved (dump `O`) holds such a value in an enabled float
+    parameter, the file does not scan (H 0) and load_from_file rejects it (R neg) - what the defect-mirroring model
+    predicts for every such state (posinf_not_restored_counterexample, nan_not_restored_counterexample); where the model's
+    output is at hand its verdict on the file (H, R) has to be the same."""
     ids = [d.get("id") for d in defs]
-    if "C12-K9" not in ids or model_out is None or impl_out != model_out:
+    if "C12-K9" not in ids:
         return None
     w = op.split()
-    if w[0] not in ("sl", "bad"):
+    if w[0] not in ("sl", "bad") or impl_out.startswith("crash") or impl_out == "bad-op":
         return None
     d = parse_out(impl_out)
     O = d.get("O")
-    if O is None:
-        # `bad` ops do not print the saved state: the history decides
-        return "C12-K9" if "~f~7f800000" in w[3] and d.get("R") == "neg" else None
-    if any(v == "f7f800000" for v in parse_fields(O).values()) and d.get("H") == "0" and d.get("R") == "neg":
-        return "C12-K9"
-    return None
+    if O is None or d.get("R") != "neg" or (w[0] == "sl" and d.get("H") != "0"):
+        return None
+    fields = parse_fields(O)
+    kid = None
+    if any(unscannable_float(v) for v in fields.values()):
+        kid = "C12-K9"
+    elif "C12-K10" in ids and mixed_option_array(SA.pool()[int(w[1])], fields):
+        kid = "C12-K10"
+    if kid is None:
+        return None
+    if model_out is not None:
+        dm = parse_out(model_out)
+        if dm.get("R") != "neg" or dm.get("H") != d.get("H"):
+            return None
+    return kid
 
 
 def neighbours(op, rng):
@@ -648,3 +875,50 @@ def neighbours(op, rng):
     for k in range(len(msgs)):
         h = msgs[:k] + msgs[k + 1:]
         yield " ".join(w[:3] + [";".join(h) if h else "-"] + w[4:])
+
+
+# ------------------------------------------------------------------------------------
+# runner hook: the model's save / load runs on the state the implementation saved
+# ------------------------------------------------------------------------------------
+def main(argv):
+    """The pre-save dump `O` of the implementation is INPUT of the comparison, not an observable of the property (its
+    `observe_at`: the text of save_to_file, the result of load_from_file, the fields after loading): how the callbacks (C14)
+    brought the state about is not this property's business.  The dump is appended to the op line the driver gets; the
+    driver saves and loads the state the dump describes (hidden parameters at their fresh values) and echoes the dump.
+    Where that state is not the one the model's own run of the history reaches, the driver says so in a trailing `HD 1`,
+    which is counted (evidence: input_distribution.history_state_differs_from_model) and removed."""
+    import vlib
+    orig_h, orig_d = vlib.run_harness, vlib.run_driver
+    last = {}
+
+    def run_harness_rec(exe, ops, workdir, tag, extra_args=()):
+        out = orig_h(exe, ops, workdir, tag, extra_args)
+        last["ops"], last["out"] = list(ops), out
+        return out
+
+    def run_driver_dump(engine, ops, workdir, tag, nproc=1):
+        ops2 = ops
+        if last.get("ops") == list(ops):
+            ops2 = []
+            for op, o in zip(ops, last["out"]):
+                dump = None
+                if op.split(" ", 1)[0] in ("sl", "bad") and not o.startswith("crash") and o != "bad-op":
+                    dump = parse_out(o).get("O")
+                ops2.append(op + " " + dump if dump else op)
+        raw = orig_d(engine, ops2, workdir, tag, nproc)
+        out = []
+        n = 0
+        for r in raw:
+            if r.endswith(" HD 1"):
+                r = r[:-5]
+                n += 1
+            out.append(r)
+        if _STATS is not None and tag == "main":
+            _STATS["history_state_differs_from_model"] = n
+        return out
+
+    vlib.run_harness, vlib.run_driver = run_harness_rec, run_driver_dump
+    try:
+        return vlib.main(sys.modules[__name__], argv)
+    finally:
+        vlib.run_harness, vlib.run_driver = orig_h, orig_d
